@@ -486,8 +486,8 @@ def check_roundtrip(chk, lab, m, M, spec):
 def obj_digest(m):
     """everything the instance holds (arrays by dtype/shape/bytes)"""
     out = [type(m).__name__]
-    for k in sorted(vars(m)):
-        v = vars(m)[k]
+    for k in sorted(bfs.state_of(m)):
+        v = bfs.state_of(m)[k]
         if isinstance(v, np.ndarray):
             out.append((k, str(v.dtype), v.shape, v.tobytes()))
         else:
